@@ -10,7 +10,8 @@ the code that exists, statement for statement:
                       EXOGENOUS, the keyword / invalid check
   `combine`         — `Symbol.combine` incl. its AssertionError / SymbolError / TypeError / ParserError outcomes
   `symbolsOfTerms`  — the per-term fold at the end of `parse_equation` (Python `dict` = association list with
-                      in-place re-assignment; function overwrite; verbatim skipped)
+                      in-place re-assignment; function/variable clash = ParserError; verbatim skipped; exactly one
+                      endogenous symbol with an equation, else ParserError)
   `mergeModel`      — the fold at the end of `parse_model` (`list(symbols.values()) + verbatim`)
   `buildLists`      — the four class lists, `abs(min(lags))` / `abs(max(leads))`, `lags=` / `min_lags=`
   `renderBody`      — expression selection, converter, `textwrap.indent`, `'\n\n'.join`, the `pass` fallback
@@ -198,17 +199,29 @@ def stepTerm (equation code : String) (st : EqState) (t : Term) : Except Err EqS
       -- `assert symbol == functions[name]`  (the bare function symbol never carries equation/code)
       if f = ⟨some t.name, t.type, t.index, t.index, none, none⟩ then .ok st else .error .assertionError
     | none =>
-      .ok ⟨setSym ⟨some t.name, t.type, t.index, t.index, none, none⟩ st.symbols,
-           st.functions ++ [⟨some t.name, t.type, t.index, t.index, none, none⟩]⟩
+      match findSym (some t.name) st.symbols with
+      -- `elif name in symbols`: a variable of the same name would be overwritten — ParserError
+      | some _ => .error .parserError
+      | none =>
+        .ok ⟨setSym ⟨some t.name, t.type, t.index, t.index, none, none⟩ st.symbols,
+             st.functions ++ [⟨some t.name, t.type, t.index, t.index, none, none⟩]⟩
   else
-    match addSym st.symbols (termSymbol equation code t) with
-    | .ok d => .ok ⟨d, st.functions⟩
-    | .error e => .error e
+    match findSym (some t.name) st.functions with
+    -- `if name in functions`: a variable named like a function called in the same statement — ParserError
+    | some _ => .error .parserError
+    | none =>
+      match addSym st.symbols (termSymbol equation code t) with
+      | .ok d => .ok ⟨d, st.functions⟩
+      | .error e => .error e
 
-/-- `list(symbols.values())` of `parse_equation` for a non-verbatim statement. -/
+/-- `s.type == Type.ENDOGENOUS and s.equation is not None`. -/
+def isDefined (s : Symbol) : Bool := s.type = .endogenous && s.equation.isSome
+
+/-- `list(symbols.values())` of `parse_equation` for a non-verbatim statement; ParserError unless exactly one
+    symbol is an endogenous variable carrying the equation. -/
 def symbolsOfTerms (equation code : String) (terms : List Term) : Except Err (List Symbol) :=
   match foldE (stepTerm equation code) ⟨[], []⟩ terms with
-  | .ok st => .ok st.symbols
+  | .ok st => if (st.symbols.filter isDefined).length = 1 then .ok st.symbols else .error .parserError
   | .error e => .error e
 
 /-! ### The merge at the end of `parse_model` -/
